@@ -14,26 +14,56 @@ def rebind(module, real, replacement):
 
 
 def install_recorder_clock(clock_fn):
-    """tape_recorder reads time() and datetime.utcnow(): both follow the harness clock."""
+    """tape_recorder reads time() and datetime.utcnow(): both follow the harness clock. Every way the module could reach the clock
+    is covered (the function or class imported by name, or the `time` / `datetime` module itself; wall, monotonic and performance
+    counters; naive-local, naive-UTC and aware constructors), so that an equivalent rewrite stays on the harness clock."""
+    import types
     import playback.tape_recorder as T
+    EPOCH = _dt.datetime(2020, 1, 1)
+    LOCAL = _dt.timedelta(hours=9)   # the simulated process runs in a UTC+9 local zone: local-time constructors differ from UTC ones
+
+    def utc_at(ts):
+        return EPOCH + _dt.timedelta(seconds=ts)
+
+    def aware(naive_utc, tz):
+        return naive_utc.replace(tzinfo=_dt.timezone.utc).astimezone(tz)
 
     class FakeDT(_dt.datetime):
         @classmethod
         def utcnow(cls):
-            return _dt.datetime(2020, 1, 1) + _dt.timedelta(seconds=clock_fn())
+            return utc_at(clock_fn())
 
-        # the simulated process runs in a UTC+9 local zone: local-time constructors differ from utcnow()
         @classmethod
         def today(cls):
-            return cls.utcnow() + _dt.timedelta(hours=9)
+            return utc_at(clock_fn()) + LOCAL
 
         @classmethod
         def now(cls, tz=None):
-            return cls.utcnow() + _dt.timedelta(hours=9)
+            return utc_at(clock_fn()) + LOCAL if tz is None else aware(utc_at(clock_fn()), tz)
+
+        @classmethod
+        def fromtimestamp(cls, ts, tz=None):
+            return utc_at(ts) + LOCAL if tz is None else aware(utc_at(ts), tz)
+
+        @classmethod
+        def utcfromtimestamp(cls, ts):
+            return utc_at(ts)
+    clock = lambda: clock_fn()
+    clock_ns = lambda: int(clock_fn() * 1e9)
+    tshim = types.SimpleNamespace(**{k: getattr(_time, k) for k in dir(_time) if not k.startswith('__')})
+    tshim.time = tshim.monotonic = tshim.perf_counter = clock
+    tshim.time_ns = tshim.monotonic_ns = tshim.perf_counter_ns = clock_ns
+    dshim = types.SimpleNamespace(**{k: getattr(_dt, k) for k in dir(_dt) if not k.startswith('__')})
+    dshim.datetime = FakeDT
     found = []
     if not getattr(T, '_mc_clock', False):
-        found += rebind(T, _time.time, lambda: clock_fn())
+        for real in (_time.time, _time.monotonic, _time.perf_counter):
+            found += rebind(T, real, clock)
+        for real in (_time.time_ns, _time.monotonic_ns, _time.perf_counter_ns):
+            found += rebind(T, real, clock_ns)
         found += rebind(T, _dt.datetime, FakeDT)
+        found += rebind(T, _time, tshim)
+        found += rebind(T, _dt, dshim)
         T._mc_clock = True
         T._mc_found = found
     return T._mc_found
